@@ -107,6 +107,10 @@ class GotranPythonCodePrinter(PythonCodePrinter):
             value = f"numpy.{func}({value}, {self._print(arg)})"
         return value
 
+    def _print_Not(self, expr):
+        # Python's ``not`` does not work for arrays or traced jax values
+        return f"numpy.logical_not({self._print(expr.args[0])})"
+
     def _print_And(self, expr):
         return self._print_logical("logical_and", expr.args)
 
